@@ -51,7 +51,8 @@ impl BSM {
 
         let verify_address = verify_p2pkh.to_string_impl()?;
         let address_string = address.to_string_impl()?;
-        if verify_address != address_string {
+        // Compare the public key hashes: the address may carry any network prefix
+        if verify_p2pkh.to_pubkey_hash() != address.to_pubkey_hash() {
             return Err(BSVErrors::MessageVerification(format!(
                 "Provided address ({}) does not match signature address ({})",
                 address_string, verify_address
